@@ -690,7 +690,8 @@ def normalise(t):
                 k = pred[3]
         if k is not None and not uses_elem:
             return normalise(("if", ("iflet", ("pvar", "Option::Some", k), x), ("Some", t[3]), ("None",)))
-    if h == "call" and t[1] == "Option::filter" and len(t) == 4 and _is(t[3], "lambda") and len(t[3][1]) == 1 and _is(t[3][1][0], "bind"):
+    if h == "call" and t[1] == "Option::filter" and len(t) == 4 and _is(t[3], "lambda") and len(t[3][1]) == 1 and _is(t[3][1][0], "bind") \
+            and not (_is(t[3][2], "op") and len(t[3][2]) == 5 and t[3][2][1] == "eq" and t[3][2][2] == "char"):     # (a char test under .map: see mapopt below)
         # x.filter(|v| p(v))  ==  match x { Some(v) => if p(v) { Some(v) } else { None }, None => None }
         v = t[3][1][0][1]
         return normalise(("match", t[2], (("pvar", "Option::Some", ("bind", v)), ("if", t[3][2], ("Some", ("var", v)), ("None",))), (("pvar", "Option::None"), ("None",))))
